@@ -184,6 +184,14 @@ def datastring2bytes(s: str) -> bytes:
     return f.getvalue()
 
 
+def string2name(text: str) -> str:
+    """Convert a name as written in a string of the text format to the name.
+
+    The inverse of text.util.name2string.
+    """
+    return datastring2bytes(text).decode("utf-8")
+
+
 def unescape(text: str) -> str:
     """Remove escaped characters"""
     f = io.StringIO()
